@@ -51,6 +51,10 @@ impl Default for PoolConfig {
     /// Creates a new [`PoolConfig`] with the `max_size` being set to
     /// `cpu_count * 4` ignoring any logical CPUs (Hyper-Threading).
     fn default() -> Self {
+        #[cfg(deadpool_verif)]
+        if let Some(n) = deadpool_runtime::verif::physical_cpus() {
+            return Self::new(n * 4);
+        }
         Self::new(num_cpus::get_physical() * 4)
     }
 }
